@@ -6,6 +6,7 @@ mod loopdiff;
 mod racediff;
 mod ridiff;
 mod rwdiff;
+mod srcdiff;
 mod sysdiff;
 mod util;
 mod watchdiff;
@@ -22,6 +23,7 @@ fn main() {
         "loopdiff" => loopdiff::run(&a),
         "watchdiff" => watchdiff::run(&a),
         "racediff" => racediff::run(&a),
+        "srcdiff" => srcdiff::run(&a),
         "answers-child" => std::process::exit(answers::child(&a)),
         other => {
             eprintln!("unknown engine {other}");
